@@ -73,10 +73,34 @@ impl<U: UnitTag> Value for Liar<U> {
 impl<U: UnitTag> MetricValue for Liar<U> {
     type Unit = U;
 }
-struct Stringy<U>(PhantomData<U>);
+struct Stringy<U>(PhantomData<U>, String);
 impl<U: UnitTag> Value for Stringy<U> {
     fn write(&self, w: impl ValueWriter) {
-        w.string("text")
+        w.string(&self.1)
+    }
+}
+/// the text a string value writes in this case: a word, the empty string, or text that LOOKS like a
+/// number (the case's first observation printed in decimal / padded / scientific notation, or a
+/// fixed numeric literal) - a string stays a string whatever it spells
+fn text_for(obs: &[Obs]) -> String {
+    let first = match obs.first() {
+        Some(Obs::U(u)) => *u as f64,
+        Some(Obs::Fl(f)) => f.0,
+        Some(Obs::Rep { total, .. }) => total.0,
+        None => 2.0,
+    };
+    let k = obs.len() + (first.to_bits() % 7) as usize;
+    match k % 10 {
+        0 => "text".to_string(),
+        1 => String::new(),
+        2 => format!("{first}"),
+        3 => format!(" {first} "),
+        4 => format!("{first:e}"),
+        5 => "2".to_string(),
+        6 => "1e3".to_string(),
+        7 => "NaN".to_string(),
+        8 => "-0.5".to_string(),
+        _ => "4096".to_string(),
     }
 }
 impl<U: UnitTag> MetricValue for Stringy<U> {
@@ -217,7 +241,7 @@ fn probe<F: UnitTag + Convert<T> + 'static, T: UnitTag + 'static>(obs: &[Obs], o
     for mode in 0..4u8 {
         out.push(mk("liar", vec![], rec_of(&Liar::<F>(mode, PhantomData).with_unit::<T>())));
     }
-    out.push(mk("string", vec![], rec_of(&Stringy::<F>(PhantomData).with_unit::<T>())));
+    out.push(mk("string", vec![], rec_of(&Stringy::<F>(PhantomData, text_for(obs)).with_unit::<T>())));
     // the same through a distribution under a declared unit: the distribution itself has to notice
     for mode in 0..4u8 {
         let n = 1 + (mode as usize + obs.len()) % 3;
@@ -279,7 +303,7 @@ fn probe_from<F: UnitTag + 'static>(obs: &[Obs], out: &mut Vec<Probe>) {
         let d: Distribution<Liar<F>> = (0..n).map(|_| Liar::<F>(mode, PhantomData)).collect();
         out.push(mk("liar", vec![], rec_of(&d)));
     }
-    let ds: Distribution<Stringy<F>> = (0..(1 + obs.len() % 2)).map(|_| Stringy::<F>(PhantomData)).collect();
+    let ds: Distribution<Stringy<F>> = (0..(1 + obs.len() % 2)).map(|_| Stringy::<F>(PhantomData, text_for(obs))).collect();
     out.push(mk("string", vec![], rec_of(&ds)));
     let mode = (obs.len() % 4) as u8;
     let liars: Vec<Liar<F>> = (0..(1 + obs.len() % 3)).map(|_| Liar::<F>(mode, PhantomData)).collect();
@@ -290,7 +314,7 @@ fn probe_from<F: UnitTag + 'static>(obs: &[Obs], out: &mut Vec<Probe>) {
     let dl: Distribution<Liar<F>, 4> = (0..(1 + obs.len() % 3)).map(|_| Liar::<F>(mode, PhantomData)).collect();
     out.push(mk("liar", vec![], err_or(dl.try_to_mean())));
     out.push(mk("liar", vec![], rec_of(&dl)));
-    let strs = [Stringy::<F>(PhantomData)];
+    let strs = [Stringy::<F>(PhantomData, text_for(obs))];
     out.push(mk("string", vec![], err_or(Mean::<F>::try_new(strs.iter()))));
 }
 
@@ -720,7 +744,7 @@ pub fn run(ctx: &mut Ctx) {
     ctx.explore(
         SubCfg::new(
             "c19-all-pairs",
-            "each case = one observation list (0-4 observations: unsigned incl. 2^53+-1 and u64::MAX, floats log-uniform over 1e-300..1e300, subnormal, +-0, non-finite, repeated with occurrences 0..u64::MAX) pushed through ALL 435 ordered convertible pairs (3x3 time, 20x20 bit/byte(/s), None->26) x {WithUnit direct, Distribution, Mean, Option Some/None, A->B->A round trip (409 pairs), liar value (writes another kind / the same kind at another scale / the sibling kind at the same scale), string value, each also as the elements of a Distribution of 1-3 values, bare and under a declared unit}. Oracle: exact integer scale table; emitted*scale(to) == original*scale(from) within 4 ulp, identical at ratio 1, occurrences and dimensions untouched, unit name = declared and every tag's unit constant carries the name and scale its identifier promises (own literal table), liar/string => validation error. Non-trivial = ratio != 1 with a repeated or multi-observation value",
+            "each case = one observation list (0-4 observations: unsigned incl. 2^53+-1 and u64::MAX, floats log-uniform over 1e-300..1e300, subnormal, +-0, non-finite, repeated with occurrences 0..u64::MAX) pushed through ALL 435 ordered convertible pairs (3x3 time, 20x20 bit/byte(/s), None->26) x {WithUnit direct, Distribution, Mean, Option Some/None, A->B->A round trip (409 pairs), liar value (writes another kind / the same kind at another scale / the sibling kind at the same scale), string value (a word, the empty string, or numeric-looking text such as the first observation printed in decimal or scientific notation), each also as the elements of a Distribution of 1-3 values, bare and under a declared unit}. Oracle: exact integer scale table; emitted*scale(to) == original*scale(from) within 4 ulp, identical at ratio 1, occurrences and dimensions untouched, unit name = declared and every tag's unit constant carries the name and scale its identifier promises (own literal table), liar/string => validation error. Non-trivial = ratio != 1 with a repeated or multi-observation value",
             if q { 3_000 } else { 200_000 },
         )
         .threads(ctx.tier.pick(8, 16))
